@@ -76,7 +76,10 @@ def run(pid, tier, seed, build, env):
             "assumptions": ["Kani/CBMC model of the compiled MIR; CBMC 6.11 + cadical"], "stubs": [], "solver_s": 0, "solvers": "CBMC 6.11 + cadical (Kani 0.68)",
             "obligation_records": [], "distinct_nontrivial": 0, "notes": []}
     if not items:
-        part["inconclusive"].append(f"no Kani harnesses registered for {pid}")
+        if reg.get(pid):
+            part["notes"].append(f"the Kani harnesses of {pid} run in the thorough tier only (cost); not part of this quick run")
+        else:
+            part["inconclusive"].append(f"no Kani harnesses registered for {pid}")
         return part
     by_crate = {}
     for h in items:
